@@ -213,6 +213,7 @@ func (vc *VC) havocCall(st *State, name string, args []Val, resT types.Type, may
 					continue
 				}
 				st.heap[n] = vc.fresh("Hhavoc_"+n, vc.arrays[n])
+				vc.noteWrite(n, "")
 				vc.refBound(n, st.heap[n], al)
 			}
 			st.assume(vc, Ge(al, st.alloc))
@@ -765,6 +766,7 @@ func (vc *VC) havocModSet(st *State, pre *State, ms *ModSet, allowFreshWrites bo
 				vc.define(fmt.Sprintf("(forall ((i Int)) (! (=> (not (and (<= %s i) (< i %s))) (= (select %s i) (select %s i))) :pattern ((select %s i))))", m.Lo, m.Hi, na, old, na))
 
 				h = vc.forceName("H_"+n, sort, Sto(h, m.Reg, na))
+				vc.noteWrite(n, Sto("x", m.Reg, "y"))
 			}
 			st.heap[n] = h
 		}
